@@ -1299,3 +1299,149 @@ func noFetchedRowIsSkipped(c *kit.Ctx) {
 		c.Check(e == nil, fetch, "no-fetched-row-skipped", u.Pos(), "after update() the next request is sent only on the edge len(resp.Results) == 0", "fetch can ask the server for more although the response it has just accounted for carried results (e.g. because it is flagged as a heartbeat - a response cut short by the server's time limit may carry rows): those rows are dropped silently, the server-side scanner has moved past them: "+c.BlockPath(e))
 	}
 }
+
+// endOfScanRowHasCells: the row Next hands out when the stream ends while a row is being assembled has at
+// least one cell: fragments without cells (a server may send them) do not make a row. C06.R2.
+func endOfScanRowHasCells(c *kit.Ctx) {
+	next := c.Anchor("", "scanner", "Next")
+	cellF := c.P.Field("pb", "Result", "Cell")
+	eofG := c.P.Global("io", "EOF")
+	if next == nil || cellF == nil {
+		return
+	}
+	if eofG == nil {
+		if pkg := c.P.SSA.ImportedPackage("io"); pkg != nil {
+			eofG, _ = pkg.Members["EOF"].(*ssa.Global)
+		}
+	}
+	isCells := func(v ssa.Value) bool {
+		u, ok := v.(*ssa.UnOp)
+		if !ok || u.Op != token.MUL {
+			return false
+		}
+		fa, ok := u.X.(*ssa.FieldAddr)
+		return ok && kit.FieldVar(fa.X.Type(), fa.Field) == cellF
+	}
+	n := 0
+	kit.Instrs(next, func(in ssa.Instruction) {
+		r, ok := in.(*ssa.Return)
+		if !ok || len(r.Results) != 2 {
+			return
+		}
+		if ev := returnedError(r); ev == nil || !kit.IsNilConst(kit.Root(ev)) {
+			return
+		}
+		atEOF := false
+		for _, f := range kit.FactsAt(r.Block()) {
+			if cmp, ok := kit.CanonCmp(f.Cond, f.Pol); ok && cmp.Op == token.EQL && eofG != nil && (isGlobalLoad(kit.Strip(cmp.X), eofG) || isGlobalLoad(kit.Strip(cmp.Y), eofG)) {
+				atEOF = true
+			}
+		}
+		if !atEOF {
+			return
+		}
+		n++
+		good := false
+		for _, f := range kit.FactsAt(r.Block()) {
+			if empty, ok := lenFact(f, isCells); ok && !empty {
+				good = true
+			}
+		}
+		c.Check(good, next, "end-of-scan-row-has-cells", r.Pos(), "what is returned as the last row is known to have cells", "at the end of the scan Next returns whatever it has assembled as a row, also when that is a fragment without any cell: the scan yields one result more than there are rows")
+	})
+	if n == 0 {
+		c.Unk(next, "end-of-scan-row-has-cells", next.Pos(), "Next no longer returns the row under assembly when the stream ends")
+	}
+}
+
+// responseIndicesAreUnique: a call takes exactly one result (its result channel has capacity one and the
+// reader goroutine sends without a default case): the decoder of a multi response marks every accepted action
+// index and rejects a response that mentions one twice. C02.R4, C11.K4 (precondition of the tabled
+// result-channel sends of C13.R1 and of "completed exactly once" in C03).
+func responseIndicesAreUnique(c *kit.Ctx) {
+	d := c.Anchor("region", "multi", "DeserializeCellBlocks")
+	if d == nil {
+		return
+	}
+	eng := bounds.New(c.P)
+	var idxCalls []*ssa.Call
+	kit.Instrs(d, func(in ssa.Instruction) {
+		if call, ok := in.(*ssa.Call); ok {
+			if fn := kit.StaticCallee(call); fn != nil && fn.Name() == "GetIndex" && fn.Pkg != nil && fn.Pkg.Pkg.Path() == kit.Module+"/pb" {
+				idxCalls = append(idxCalls, call)
+			}
+		}
+	})
+	if len(idxCalls) == 0 {
+		c.Unk(d, "response-indices-unique", d.Pos(), "multi.DeserializeCellBlocks no longer reads the action index of results")
+		return
+	}
+	isBoolSlot := func(addr ssa.Value, idx *ssa.Call) bool {
+		ia, ok := addr.(*ssa.IndexAddr)
+		if !ok {
+			return false
+		}
+		sl, ok := ia.X.Type().Underlying().(*types.Slice)
+		if !ok {
+			return false
+		}
+		if bt, ok := sl.Elem().Underlying().(*types.Basic); !ok || bt.Kind() != types.Bool {
+			return false
+		}
+		k, isConst := eng.Lin(ia.Index).Sub(eng.Lin(idx)).IsConst()
+		return isConst && k == -1
+	}
+	for _, idx := range idxCalls {
+		var marks []ssa.Instruction
+		tested := false
+		kit.Instrs(d, func(in ssa.Instruction) {
+			switch x := in.(type) {
+			case *ssa.Store:
+				if kc, ok := x.Val.(*ssa.Const); ok && kc.Value != nil && kc.Value.ExactString() == "true" && isBoolSlot(x.Addr, idx) {
+					marks = append(marks, x)
+				}
+			case *ssa.If:
+				cond, pol := x.Cond, true
+				if u, ok := cond.(*ssa.UnOp); ok && u.Op == token.NOT {
+					cond, pol = u.X, false
+				}
+				if l, ok := cond.(*ssa.UnOp); ok && l.Op == token.MUL && isBoolSlot(l.X, idx) {
+					rej := kit.SuccOnTrue(x)
+					if !pol {
+						rej = kit.SuccOnFalse(x)
+					}
+					for _, y := range rej.Instrs {
+						if r, ok := y.(*ssa.Return); ok {
+							if ev := returnedError(r); ev != nil && !kit.IsNilConst(kit.Root(ev)) {
+								tested = true
+							}
+						}
+					}
+				}
+			}
+		})
+		e := kit.PathFrom(idx, kit.PathQuery{
+			Stop: func(x ssa.Instruction) bool {
+				for _, m := range marks {
+					if x == m {
+						return true
+					}
+				}
+				if r, ok := x.(*ssa.Return); ok {
+					if ev := returnedError(r); ev != nil && !kit.IsNilConst(kit.Root(ev)) {
+						return true // the response is rejected
+					}
+				}
+				return false
+			},
+			Target: func(x ssa.Instruction) bool {
+				if x == ssa.Instruction(idx) {
+					return true // the next entry
+				}
+				_, isRet := x.(*ssa.Return)
+				return isRet
+			},
+		})
+		c.Check(tested && len(marks) > 0 && e == nil, d, "response-indices-unique", idx.Pos(), "every accepted action index is marked in a []bool and a marked one is rejected", "the decoder accepts a multi response that mentions the same action index more than once: returnResults then sends more than one result to the call's capacity-1 channel, the connection's reader goroutine blocks for ever and nobody on the connection is answered any more: "+c.BlockPath(e))
+	}
+}
